@@ -295,13 +295,14 @@ def _close(a, b, slack=None):
     return bool(np.nanmax(excess) <= 0 and masked_everywhere_nonfinite), int(comparable.sum()), err, str(a.shape)
 
 
-def _perturbed(data):
+def _perturbed(data, variant=0):
     np = _np()
     out = {}
+    eps = (1e-12, 1e-12, 1e-10)[variant % 3]
     for i, (key, val) in enumerate(sorted(data.items())):
         if isinstance(val, np.ndarray):
-            rng = np.random.default_rng(1000 + i)
-            out[key] = val * (1 + 1e-12 * rng.choice([-1.0, 1.0], size=val.shape))
+            rng = np.random.default_rng(1000 + i + 7919 * variant)
+            out[key] = val * (1 + eps * rng.choice([-1.0, 1.0], size=val.shape))
         else:
             out[key] = val
     return out
@@ -336,6 +337,25 @@ def _hazard_mask(expr, names, data, n_events):
     np = _np()
     ordering, branch = _ordering_operands(expr)
     mask = np.zeros(n_events, dtype=bool)
+    # atan2(y, x) of two values that are both rounding residues (|x|+|y| tiny compared with the
+    # inputs they were computed from, e.g. the azimuth of a momentum boosted into its own rest
+    # frame) is noise: any evaluation order gives another angle
+    sp = _sp()
+    atan2_nodes = [n for n in sp.preorder_traversal(expr) if isinstance(n, sp.atan2)]
+    if atan2_nodes:
+        try:
+            parts = _lambdify_eval([a for n in atan2_nodes for a in n.args], names, data, cse=False)
+            scale = max((float(np.max(np.abs(v))) for v in data.values() if isinstance(v, np.ndarray)), default=1.0)
+            for k in range(len(atan2_nodes)):
+                y, x = (np.asarray(parts[2 * k], dtype=complex), np.asarray(parts[2 * k + 1], dtype=complex))
+                bad = (np.abs(x) + np.abs(y)) <= 1e-9 * max(scale, 1e-300)
+                if bad.ndim == 0 or bad.shape[0] != n_events:
+                    if bad.any():
+                        mask[:] = True
+                else:
+                    mask |= bad.reshape(n_events, -1).any(axis=1)
+        except Exception:  # noqa: BLE001
+            return np.ones(n_events, dtype=bool)
     if not ordering and not branch:
         return mask
     try:
@@ -362,11 +382,16 @@ def _condition_slack(expr, names, data, reference, n_events=3):
     an ordering hazard); returns (slack, ill_conditioned?, n_hazard_events)"""
     np = _np()
     try:
-        moved = np.asarray(_lambdify_eval(expr, names, _perturbed(data), cse=True), dtype=complex)
         ref = np.asarray(reference, dtype=complex)
-        with np.errstate(all="ignore"):
-            slack = np.abs(moved - ref)
-        slack = np.where(np.isfinite(slack), slack, np.inf)
+        slack = None
+        # several independent perturbations: a value that is pure rounding noise (e.g. the azimuth
+        # of a momentum boosted into its own rest frame) can move little under a single one by chance
+        for variant in range(3):
+            moved = np.asarray(_lambdify_eval(expr, names, _perturbed(data, variant), cse=True), dtype=complex)
+            with np.errstate(all="ignore"):
+                one = np.abs(moved - ref)
+            one = np.where(np.isfinite(one), one, np.inf)
+            slack = one if slack is None else np.maximum(slack, one)
         scale = np.maximum(1.0, np.abs(ref))
         ill = bool(np.any(slack > TOL * np.where(np.isfinite(scale), scale, 1.0)))
         mask = _hazard_mask(expr, names, data, n_events)
